@@ -166,6 +166,9 @@ def case(g, tier, ci):
         elif k < 0.96 and len(pool) < 4:
             b2 = r.choice(pool)
             nb = g.fresh("b")
+            if r.random() < 0.4:
+                # the operands of + may carry different sample rates (or one of them none): the sum has the left one's
+                ops.append({"op": "bp.setSR", "id": r.choice([b, b2]), "SR": enc(r.choice([1, 10, 100, 2.5, 4]))})
             ops.append({"op": "bp.add", "a": b, "b": b2, "to": nb})
             pool.append(nb)
             names[nb] = canonical_names([basename(x) for x in names[b] + names[b2]])
